@@ -29,7 +29,7 @@ theorem unknown_asks (n : Nat) (tokens : List String) (cwd : String) (rem : Bool
   rw [simpleCmd]
   simp only [hne, Bool.false_eq_true, ↓reduceIte, hm, hw, Bool.false_and]
   unfold builtinVerdict
-  simp only [hs, Bool.false_eq_true, ↓reduceIte, hv, hh]
+  simp only [hs, Bool.false_eq_true, ↓reduceIte, hv, hh, Bool.false_and]
 
 /-- the sole exception, spelled out -/
 theorem help_shape (hw hf2 hfl : List String) (tokens : List String) :
